@@ -273,6 +273,18 @@ template <class L, bool UND> struct GrSlot : SlotBase {
             out = guard([&] { g.removeEdge(i, j); return std::string("ok"); });
             return true;
         }
+        if (verb == "removeFrontEdge") {
+            // the natural emptying loop `g.removeEdge(v, g.getOutNeighbours(v).front())`: the second argument is a
+            // reference into the very list the call edits
+            if (a.size() != 1 || !pv(a[0], i)) return false;
+            out = guard([&] {
+                const auto &nb = g.getOutNeighbours(i);
+                if (nb.empty()) return std::string("none");
+                g.removeEdge(i, nb.front());
+                return std::string("ok");
+            });
+            return true;
+        }
         if (verb == "removeSelfLoops" && a.empty()) { out = guard([&] { g.removeSelfLoops(); return std::string("ok"); }); return true; }
         if (verb == "removeDuplicateEdges" && a.empty()) { out = guard([&] { g.removeDuplicateEdges(); return std::string("ok"); }); return true; }
         if (verb == "clearEdges" && a.empty()) { out = guard([&] { g.clearEdges(); return std::string("ok"); }); return true; }
@@ -438,6 +450,18 @@ template <bool UND> struct MgSlot : SlotBase {
             out = guard([&] { g.removeEdge(i, j); return std::string("ok"); });
             return true;
         }
+        if (verb == "removeFrontEdge") {
+            // the natural emptying loop `g.removeEdge(v, g.getOutNeighbours(v).front())`: the second argument is a
+            // reference into the very list the call edits
+            if (a.size() != 1 || !pv(a[0], i)) return false;
+            out = guard([&] {
+                const auto &nb = g.getOutNeighbours(i);
+                if (nb.empty()) return std::string("none");
+                g.removeEdge(i, nb.front());
+                return std::string("ok");
+            });
+            return true;
+        }
         if (verb == "removeMultiedge") {
             if (a.size() != 3 || !pv(a[0], i) || !pv(a[1], j) || !pv(a[2], k)) return false;
             out = guard([&] { g.removeMultiedge(i, j, k); return std::string("ok"); });
@@ -560,6 +584,18 @@ template <bool UND> struct WgSlot : SlotBase {
         if (verb == "removeEdge") {
             if (a.size() != 2 || !pv(a[0], i) || !pv(a[1], j)) return false;
             out = guard([&] { g.removeEdge(i, j); return std::string("ok"); });
+            return true;
+        }
+        if (verb == "removeFrontEdge") {
+            // the natural emptying loop `g.removeEdge(v, g.getOutNeighbours(v).front())`: the second argument is a
+            // reference into the very list the call edits
+            if (a.size() != 1 || !pv(a[0], i)) return false;
+            out = guard([&] {
+                const auto &nb = g.getOutNeighbours(i);
+                if (nb.empty()) return std::string("none");
+                g.removeEdge(i, nb.front());
+                return std::string("ok");
+            });
             return true;
         }
         if (verb == "removeSelfLoops" && a.empty()) { out = guard([&] { g.removeSelfLoops(); return std::string("ok"); }); return true; }
